@@ -5,12 +5,12 @@ use crate::engine::{hash64, CaseOutcome, Check, Tier};
 use serde_json::{json, Value};
 use std::sync::OnceLock;
 
-pub const N_PREFIX: usize = 19;
+pub const N_PREFIX: usize = 20;
 pub const N_KINDS: usize = 18;
 
 const PREFIX_NAMES: [&str; N_PREFIX] = [
     "blank", "line-comment", "block-comment-1", "block-comment-3", "comment-then-decl", "comment2-then-decl", "spliced-decl", "define", "if0-block", "ifdef-else-block", "include-h", "include-h-nonl", "include-asm", "define-and-use", "decl-with-string", "crlf-decl",
-    "block-comment-url", "include-asm-nonl", "decl-with-non-ascii",
+    "block-comment-url", "include-asm-nonl", "decl-with-non-ascii", "directives-with-tabs",
 ];
 
 const KIND_NAMES: [&str; N_KINDS] = [
@@ -119,6 +119,11 @@ fn emit_prefix(k: usize, seq: usize, tag: &str, t: &mut Txt, fname: &str, files:
             // multi-byte characters in the preprocessed text: offsets are bytes, not characters
             markers.push((id.clone(), fname.to_string(), vec![t.line]));
             t.push(&format!("const char {}[40] = {{{}}};\n", id, vec!["'é'"; 40].join(", ")));
+        }
+        19 => {
+            // a tab separates a directive from its argument like a space
+            markers.push((id.clone(), fname.to_string(), vec![t.line + 2]));
+            t.push(&format!("#define\tT{} 2\n#ifdef\tT{}\nconst char {} = T{};\n#endif\n#undef\tT{}\n", id, id, id, id, id));
         }
         _ => unreachable!(),
     }
